@@ -1,4 +1,5 @@
 import SkVerif.Lemmas.C14Impute2
+import Mathlib.Tactic.Ring
 namespace SkVerif.C14.Lem
 open SkVerif SkVerif.C14
 
@@ -141,7 +142,7 @@ theorem stage1_keeps (m : Method) (value : Option Rat) (z : OSeries) (i : Nat) (
   · exact fillValue_keeps _ z i v h
   · exact interpLinear_keeps z i v h
   · exact interpNearest_keeps z i v h
-  · exact final_fill_keeps z i v h
+  · rw [List.getElem?_map, List.getElem?_zipIdx, h]; rfl
   · exact h
 
 theorem stage1_length (m : Method) (value : Option Rat) (z : OSeries) : (stage1 m value z).length = z.length := by
@@ -165,8 +166,33 @@ theorem impute_complete (m : Method) (value : Option Rat) (z r : OSeries)
 
 /-! ### drift, missing_values -/
 
+theorem sq_map_sub (ts : List Rat) (m : Rat) :
+    (ts.map (· - m)).map (fun t => t * t) = ts.map (fun t => (t - m) * (t - m)) := by
+  simp [List.map_map, Function.comp_def]
+
+theorem zipWith_mul_map_sub (ts ys : List Rat) (a b : Rat) :
+    List.zipWith (· * ·) (ts.map (· - a)) (ys.map (· - b)) = List.zipWith (fun t y => (t - a) * (y - b)) ts ys := by
+  simp [List.zipWith_map]
+
+/-- sklearn's centred least squares is the least-squares line of the specification -/
+theorem trendAt_eq_spec (ys : List Rat) (i : Nat) : trendAt ys i = Spec.olsLineAt ys i := by
+  unfold trendAt Spec.olsLineAt
+  simp only [sq_map_sub, zipWith_mul_map_sub]
+  split_ifs <;> ring
+
+theorem drift_stage_getElem? (z : OSeries) (i : Nat) :
+    (stage1 .drift none z)[i]? = (z[i]?).map (driftAt (validValues (bfill (ffill z))) i) := by
+  simp only [stage1, List.getElem?_map, List.getElem?_zipIdx]
+  cases z[i]? <;> simp
+
+theorem drift_stage_complete (z : OSeries) : ∀ x ∈ stage1 .drift none z, x ≠ none := by
+  intro x hx
+  simp only [stage1, List.mem_map] at hx
+  obtain ⟨p, _, rfl⟩ := hx
+  cases p.1 <;> simp [driftAt]
+
 theorem impute_drift (z : OSeries) (p : Nat) (v : Rat) (hp : z[p]? = some (some v)) :
-    impute .drift none none z = .ok (bfill (ffill z)) := by
+    impute .drift none none z = .ok (stage1 .drift none z) := by
   have hz : z.isEmpty = false := by
     cases z with
     | nil => simp at hp
@@ -179,13 +205,22 @@ theorem impute_drift (z : OSeries) (p : Nat) (v : Rat) (hp : z[p]? = some (some 
     cases x with
     | none => exact hc none hx rfl
     | some w => cases hn
-  simp [impute, stage1, stage1Err, checkMethod, hz, replaceMissing, bind, Except.bind, pure, Except.pure, hany,
-    final_fill_complete _ hc]
+  simp only [impute, checkMethod, hz, replaceMissing, bind, Except.bind, pure, Except.pure, stage1Err, hany]
+  simp [final_fill_complete _ (drift_stage_complete z)]
 
-theorem replaceMissing_zero (z : OSeries) : replaceMissing (some 0) z = z := by simp [replaceMissing]
+/-- the heuristic fill the trend is fitted on has no gaps: its values are the list of all its entries -/
+theorem validValues_complete (y : OSeries) (h : ∀ x ∈ y, x ≠ none) : y = (validValues y).map some := by
+  induction y with
+  | nil => rfl
+  | cons x l ih =>
+    cases x with
+    | none => exact absurd rfl (h none List.mem_cons_self)
+    | some v =>
+      have := ih (fun a ha => h a (List.mem_cons_of_mem _ ha))
+      simp only [validValues, List.filterMap_cons, id, List.map_cons] at this ⊢
+      rw [← this]
 
-theorem replaceMissing_nonzero (m : Rat) (hm : m ≠ 0) (z : OSeries) :
-    replaceMissing (some m) z = z.map (fun x => if x = some m then none else x) := by
-  simp [replaceMissing, hm]
+theorem replaceMissing_some (m : Rat) (z : OSeries) :
+    replaceMissing (some m) z = z.map (fun x => if x = some m then none else x) := rfl
 
 end SkVerif.C14.Lem
